@@ -56,11 +56,144 @@ func (h *holdLog) add(a, b time.Time) {
 	h.mu.Unlock()
 }
 
-func (s *source) info(pid int, t int64) *model.ProviderInfo {
-	return &model.ProviderInfo{
-		AddrInfo:              pcdrv.AddrInfo(pid, s.idx*1000+pid),
+func (s *source) info(pid int, t int64) *model.ProviderInfo { return mkInfo(s.idx, pid, t) }
+
+// ---------------------------------------------------------------------------
+// Records with extended providers.  A record is a deterministic function of (source,
+// provider, version t); every address in it encodes all three, so a reader can tell from a
+// GetResults answer which version it was expanded from, and an answer assembled from two
+// versions cannot match the reference expansion of either.
+
+const grCtx = "ctx"
+
+var grMd = []byte{0x07, 0x01}
+
+func vtag(src, slot int, t int64) int { return src<<22 | slot<<14 | int(t&0x3fff) }
+
+func untag(tag int) (src, slot int, t int64) {
+	return tag >> 22, (tag >> 14) & 0xff, int64(tag & 0x3fff)
+}
+
+func mdOf(kind int64) []byte {
+	switch kind % 4 {
+	case 0:
+		return nil
+	case 1:
+		return []byte{}
+	case 2:
+		return append([]byte{}, grMd...) // the same bytes as the looked-up metadata
+	}
+	return []byte{0x08, byte(kind)}
+}
+
+func mkInfo(src, pid int, t int64) *model.ProviderInfo {
+	pi := &model.ProviderInfo{
+		AddrInfo:              pcdrv.AddrInfo(pid, vtag(src, pid, t)),
 		LastAdvertisementTime: time.Unix(timeBase+t, 0).UTC().Format(time.RFC3339),
 	}
+	xp := &model.ExtendedProviders{}
+	// chain level: the provider itself (skipped or not depending on its metadata), two others
+	xp.Providers = []peer.AddrInfo{pcdrv.AddrInfo(pid, vtag(src, 100, t)), pcdrv.AddrInfo(30, vtag(src, 101, t)), pcdrv.AddrInfo(31, vtag(src, 102, t))}
+	xp.Metadatas = [][]byte{mdOf(t), mdOf(t + 1), mdOf(t + 3)}
+	if t%5 == 0 {
+		xp.Metadatas = xp.Metadatas[:1] // shorter than the provider list
+	}
+	// context level, for the context the readers ask about and for another one
+	cx := model.ContextualExtendedProviders{ContextID: grCtx, Override: t%2 == 0,
+		Providers: []peer.AddrInfo{pcdrv.AddrInfo(32, vtag(src, 103, t)), pcdrv.AddrInfo(pid, vtag(src, 104, t))},
+		Metadatas: [][]byte{mdOf(t + 1), mdOf(t + 2)}}
+	if t%7 == 0 {
+		cx.Metadatas = nil
+	}
+	other := model.ContextualExtendedProviders{ContextID: "other", Override: true,
+		Providers: []peer.AddrInfo{pcdrv.AddrInfo(33, vtag(src, 105, t))}, Metadatas: [][]byte{mdOf(t)}}
+	xp.Contextual = []model.ContextualExtendedProviders{other, cx}
+	if t%11 == 3 {
+		pi.ExtendedProviders = nil
+	} else {
+		pi.ExtendedProviders = xp
+	}
+	return pi
+}
+
+type grItem struct {
+	id, tag int
+	md      []byte
+}
+
+// refExpand is the reference expansion, written from the text of property C17 (as in
+// harness/cmd/c17): the provider itself; the context-level set registered for the context
+// ID; unless that set overrides, the chain-level set; the provider's own entry skipped where
+// it adds no new metadata; the looked-up metadata substituted where an entry has none of
+// its own (absent or empty; a metadata list shorter than the provider list = absent).
+func refExpand(info *model.ProviderInfo, pid peer.ID, ctxID string, md []byte) []grItem {
+	item := func(ai peer.AddrInfo, m []byte) grItem {
+		return grItem{pcdrv.PeerIndex(ai.ID), pcdrv.AddrTag(ai.Addrs), m}
+	}
+	out := []grItem{item(info.AddrInfo, md)}
+	xp := info.ExtendedProviders
+	if xp == nil {
+		return out
+	}
+	set := func(provs []peer.AddrInfo, mds [][]byte) {
+		for i, p := range provs {
+			var own []byte
+			if i < len(mds) && len(mds[i]) > 0 {
+				own = mds[i]
+			}
+			if p.ID == pid && (own == nil || string(own) == string(md)) {
+				continue
+			}
+			if own == nil {
+				out = append(out, item(p, md))
+			} else {
+				out = append(out, item(p, own))
+			}
+		}
+	}
+	var reg *model.ContextualExtendedProviders
+	for i := range xp.Contextual {
+		if xp.Contextual[i].ContextID == ctxID {
+			reg = &xp.Contextual[i]
+		}
+	}
+	if reg != nil {
+		set(reg.Providers, reg.Metadatas)
+		if reg.Override {
+			return out
+		}
+	}
+	set(xp.Providers, xp.Metadatas)
+	return out
+}
+
+// checkResults compares a GetResults answer with the reference expansion of the record
+// version named by the answer's first element.  It returns that version's time.
+func checkResults(pid int, res []model.ProviderResult) (int64, string) {
+	if len(res) == 0 || res[0].Provider == nil || res[0].Provider.ID != pcdrv.Peer(pid) {
+		return -1, "no result for the provider itself"
+	}
+	src, slot, t := untag(pcdrv.AddrTag(res[0].Provider.Addrs))
+	if slot != pid {
+		return -1, "the first result is not the provider's own record"
+	}
+	want := refExpand(mkInfo(src, pid, t), pcdrv.Peer(pid), grCtx, grMd)
+	if len(want) != len(res) {
+		return t, fmt.Sprintf("version (source %d, time %d): %d results, the reference expansion has %d", src, t, len(res), len(want))
+	}
+	for i, w := range want {
+		r := res[i]
+		if r.Provider == nil || pcdrv.PeerIndex(r.Provider.ID) != w.id || pcdrv.AddrTag(r.Provider.Addrs) != w.tag ||
+			string(r.Metadata) != string(w.md) || string(r.ContextID) != grCtx {
+			gs, gl, gt := -1, -1, int64(-1)
+			if r.Provider != nil {
+				gs, gl, gt = untag(pcdrv.AddrTag(r.Provider.Addrs))
+			}
+			return t, fmt.Sprintf("version (source %d, time %d): result %d is (provider %d, entry of source %d slot %d version %d, metadata %x), the reference expansion has (provider %d, slot %d version %d, metadata %x)",
+				src, t, i, pcdrv.PeerIndex(r.Provider.ID), gs, gl, gt, r.Metadata, w.id, (w.tag>>14)&0xff, w.tag&0x3fff, w.md)
+		}
+	}
+	return t, ""
 }
 
 func (s *source) FetchAll(ctx context.Context) ([]*model.ProviderInfo, error) {
@@ -114,6 +247,10 @@ type Reader struct {
 	Latencies []int64 `json:"-"`         // nanoseconds per Get
 	PerHold   []int   `json:"per_hold"`  // reads completed inside each hold span
 	FirstBad  string  `json:"first_bad,omitempty"`
+
+	Expansions        int    `json:"expansions"` // GetResults calls checked against the reference expansion
+	BadExpansions     int    `json:"bad_expansions"`
+	FirstBadExpansion string `json:"first_bad_expansion,omitempty"`
 }
 
 type Scenario struct {
@@ -270,12 +407,26 @@ func runScenario(c cfg, rng *vlib.Rand) Scenario {
 							note(p, -1, "List")
 						}
 					}
-				case 1: // GetResults
+				case 1: // GetResults: against the reference expansion of the version it names
 					a := time.Now()
-					res, err := pc.GetResults(context.Background(), pcdrv.Peer(pid), []byte("ctx"), []byte{1})
+					res, err := pc.GetResults(context.Background(), pcdrv.Peer(pid), []byte(grCtx), grMd)
 					rd.Latencies = append(rd.Latencies, int64(time.Since(a)))
-					if err != nil || len(res) == 0 || res[0].Provider == nil || res[0].Provider.ID != pcdrv.Peer(pid) {
+					rd.Expansions++
+					if err != nil {
 						note(pid, -1, "GetResults")
+					} else {
+						t, bad := checkResults(pid, res)
+						if bad != "" {
+							rd.BadExpansions++
+							if rd.FirstBadExpansion == "" {
+								rd.FirstBadExpansion = fmt.Sprintf("GetResults(provider %d): %s", pid, bad)
+							}
+						}
+						if t >= 0 {
+							note(pid, t, "GetResults")
+						} else {
+							note(pid, -1, "GetResults")
+						}
 					}
 				case 2: // Len
 					a := time.Now()
@@ -362,6 +513,12 @@ func runScenario(c cfg, rng *vlib.Rand) Scenario {
 	for r := range readers {
 		if readers[r].WentBack > 0 {
 			sc.Failures = append(sc.Failures, fmt.Sprintf("monotone: reader %d: %s (%d times)", r, readers[r].FirstBad, readers[r].WentBack))
+			break
+		}
+	}
+	for r := range readers {
+		if readers[r].BadExpansions > 0 {
+			sc.Failures = append(sc.Failures, fmt.Sprintf("expansion: reader %d: %s (%d of %d GetResults answers differ from the reference expansion of the record version they name)", r, readers[r].FirstBadExpansion, readers[r].BadExpansions, readers[r].Expansions))
 			break
 		}
 	}
